@@ -114,6 +114,32 @@ Theorem trie_lookup_exact_wildcard_regex :
                                 cgetk V t (rkey body (tail_of h)) = None).
 Proof. exact lookup_precedence. Qed.
 
+(** ** 1c. Which hostnames the trie accepts (every key, any number of regex
+    segments, malformed ones included)
+
+    [accept (ksteps k)] is read off the way the key is cut: it is false when a
+    cut is malformed (trailing '/' that does not close a [/regex/] segment which
+    starts the name or follows a '.'), when a label is empty (leading '.',
+    [./re/...]), or when a regex does not compile.  [add_tree_rule] answers
+    [AddRoute] for a refused hostname (fix 9c7ad91). *)
+
+Theorem trie_acceptable_never_refused :
+  forall V re_ok (t : trie V) key v,
+    is_nil key = false -> beq key [DOT] = false -> accept re_ok (ksteps key) = true ->
+    failed (snd (insert re_ok t key v)) = false.
+Proof. exact insert_accepts. Qed.
+
+Theorem trie_accepts_exactly :
+  forall V re_ok key (v : V),
+    failed (snd (insert re_ok (root : trie V) key v)) =
+    (is_nil key || beq key [DOT] || negb (accept re_ok (ksteps key)))%bool.
+Proof. exact insert_root_accepts. Qed.
+
+Theorem trie_refused_insert_is_noop :
+  forall V re_ok (t : trie V) key v,
+    failed (snd (insert re_ok t key v)) = true -> fst (insert re_ok t key v) = t.
+Proof. exact insert_failed_unchanged. Qed.
+
 (** ** 2. Selection within a host *)
 
 Theorem selection_is_documented_choice :
@@ -440,3 +466,16 @@ Proof.
   assert (P : host_key (fun _ => true) w_x_a_com) by (left; repeat constructor; cbn; discriminate).
   constructor; [exact R|]. constructor; [exact P|]. constructor; [exact P|]. constructor.
 Qed.
+
+(** the refused and accepted hostnames of the corpus, by computation *)
+Example accept_nonvacuous :
+  let ok := fun _ : bytes => true in
+  accept ok (ksteps [97; 98; 99; 47]%N) = false /\                                  (* "abc/" *)
+  accept ok (ksteps [46; 99; 111; 109]%N) = false /\                                (* ".com" *)
+  accept ok (ksteps [46; 47; 120; 47; 46; 99; 111; 109]%N) = false /\              (* "./x/.com" *)
+  accept ok (ksteps [120; 47; 46; 97; 46; 99; 111; 109]%N) = false /\              (* "x/.a.com" *)
+  accept ok (ksteps w_w_re_a_com) = true /\                                         (* "w./r/.a.com" *)
+  accept ok (ksteps [47; 97; 47; 46; 47; 98; 47; 46; 99; 111; 109]%N) = true /\    (* "/a/./b/.com" *)
+  accept (fun _ => false) (ksteps w_w_re_a_com) = false /\
+  accept ok (ksteps w_star_a_com) = true.
+Proof. repeat split; vm_compute; reflexivity. Qed.
